@@ -356,3 +356,40 @@ def _c03_7_rest(ctx):
         d = single_assign(fn, nm)
         if d is None or not (isinstance(d, ast.Call) and call_name(d) == 'df_reindex' and [U(a) for a in d.args[:2]] == [src, 'index'] and kw(d, 'method') is not None and U(kw(d, 'method')) == '_method'):
             ctx.fail(fn, fn.node, 'presync does not reindex %s onto the common index with the requested method' % src)
+
+
+@obligation('C03.8', 'TABLES (guards by truth table)', '_pandas:_df_reindex, _df_recolumn, _df_index, _np_index',
+            'each kind of object reaches its own alignment: pandas -> reindex (as-of when the FIRST method is a fill name), arrays -> tail/pad by integer length or unchanged for a matching pandas index, proper multi-column frames -> the common columns',
+            axioms=('A4',))
+def c03_8(ctx):
+    r = ctx.repo
+    f = r.fn('_pandas:_df_reindex')
+    ts, index = f.params[0], f.params[1]
+    expect_guards(ctx, f, [
+        ('is_pd(%s)' % ts, "if is_int(%s):\n    raise ValueError('trying to reindex dataframe %%s using numpy interval length %%i' %% (%s, %s))" % (index, ts, index), 'pandas objects are reindexed on a pandas index'),
+        ("len(methods) and methods[0] in ['backfill', 'bfill', 'pad', 'ffill']", 'res = _nona(%s).reindex(%s, method=methods[0], limit=limit)' % (ts, index), 'as-of join when the first method is a fill'),
+        ('isinstance(%s, pd.Index)' % index, 'if len(%s) == len(%s) or len(%s) <= 1:\n    return %s\nelse:\n    raise ValueError(\'trying to reindex numpy array %%s using pandas index %%s\' %% (%s, %s))' % (index, ts, ts, ts, ts, index), 'arrays against a pandas index'),
+        ('%s < len(%s)' % (index, ts), 'res = %s[-%s:]' % (ts, index), 'longer arrays keep their tail'),
+        ('%s > len(%s)' % (index, ts), 'shape = (%s - len(%s),) + %s.shape[1:]' % (index, ts, ts), 'shorter arrays are padded in front'),
+    ])
+    ctx.count(1)
+    plain = [s for s in ast.walk(f.node) if isinstance(s, ast.Assign) and N(s.value) == '%s.reindex(%s)' % (ts, index)]
+    nxt = [s for s in ast.walk(f.node) if isinstance(s, ast.Assign) and N(s.value) == NS('_df_fillna(res, method=method, limit=limit)')]
+    if not plain or not nxt:
+        ctx.fail(f, f.node, 'without a leading fill method the series is not reindexed plainly and then filled with the requested methods')
+    fin = [x for x in returns_of(f.node) if isinstance(x.value, ast.Call) and call_name(x.value) == 'df_fillna']
+    if not fin or N(fin[0].value) != NS('df_fillna(res, method=methods, limit=limit)'):
+        ctx.fail(f, f.node, 'aligned arrays are not filled with the requested methods')
+    g = r.fn('_pandas:_df_recolumn')
+    expect_guards(ctx, g, [('columns is not None and is_df(ts) and ts.shape[1] > 1 and len(set(ts.columns)) == ts.shape[1]',
+                            'return pd.DataFrame({col: ts[col].values if col in ts.columns else np.nan for col in columns}, index=ts.index)',
+                            'proper multi-column frames are put on the common columns, missing ones NaN')], where=g.body)
+    for name in ('_df_index', '_np_index'):
+        h = r.fn('_pandas:%s' % name)
+        ctx.count(1, h.where())
+        top = [s for s in h.body if isinstance(s, ast.If)]
+        ok = top and prop_equiv(top[0].test, 'len(%s) > 0' % h.params[0])[0]
+        if not ok:
+            ctx.fail(h, top[0] if top else h.node, '%s looks at its policy when `%s`, expected whenever there is at least one index' % (name, U(top[0].test) if top else '?'))
+        elif not top[0].orelse or const(top[0].orelse[0].value, 'X') is not None:
+            ctx.fail(h, top[0], '%s of nothing is not None' % name)
